@@ -27,8 +27,8 @@ NoPublish     == [GuardsAll EXCEPT !.publish = FALSE]   \* readers start while t
 
 PairOps == AllCombos
 C(op, k) == [op |-> op, k |-> k]
-TripleOpsQuick == {C("iterate", "list"), C("store", "dict"), C("mutate", "closure"), C("initfail", "prog")}
-TripleOps == TripleOpsQuick \cup {C("encode", "set"), C("store", "closure"), C("callfail", "closure"), C("mutate", "list")}
+TripleOpsQuick == {C("iterate", "list"), C("store", "dict"), C("initfail", "prog")}
+TripleOps == TripleOpsQuick \cup {C("mutate", "closure"), C("encode", "set"), C("store", "closure"), C("callfail", "closure"), C("mutate", "list")}
 ProgramOpsQuick == {C("init", "prog"), C("initfail", "prog"), C("callfail", "closure")}
 ProgramOps == ProgramOpsQuick \cup {C("mutate", "closure"), C("call", "closure")}
 
